@@ -593,6 +593,52 @@ pub mod store {
 		Ok(())
 	}
 
+	/// Walk over every live table (C11): the value-log files its value pointers lead to, the table's
+	/// recorded oldest value-log file id, the manifest-wide minimum, and the files present on disk.
+	/// Returns a list of violations of "every pointer of a live table resolves to an existing file
+	/// that is at or above the table's recorded oldest id, which is at or above the manifest minimum".
+	pub fn vlog_audit(tree: &Tree) -> std::result::Result<Vec<String>, String> {
+		use crate::vlog::{ValueLocation, ValuePointer};
+		use crate::LSMIterator;
+		let inner = &tree.core.inner;
+		let mut bad = Vec::new();
+		let on_disk: std::collections::BTreeSet<u32> = match std::fs::read_dir(inner.opts.vlog_dir()) {
+			Ok(rd) => rd
+				.flatten()
+				.filter_map(|e| inner.opts.extract_vlog_file_id(&e.file_name().to_string_lossy()))
+				.collect(),
+			Err(_) => Default::default(),
+		};
+		let manifest = inner.level_manifest.read().map_err(|e| e.to_string())?;
+		let min_oldest = manifest.min_oldest_vlog_file_id();
+		for table in manifest.iter() {
+			let oldest = table.meta.properties.oldest_vlog_file_id as u32;
+			let mut it = table.iter(None).map_err(|e| e.to_string())?;
+			let mut ok = it.seek_first().map_err(|e| e.to_string())?;
+			while ok && it.valid() {
+				if let Ok(loc) = ValueLocation::decode(it.value_encoded().map_err(|e| e.to_string())?) {
+					if loc.is_value_pointer() {
+						if let Ok(ptr) = ValuePointer::decode(&loc.value) {
+							if !on_disk.contains(&ptr.file_id) {
+								bad.push(format!("table{}:pointer-to-missing-file-{}", table.id, ptr.file_id));
+							}
+							if oldest == 0 || ptr.file_id < oldest {
+								bad.push(format!("table{}:pointer-file-{}-below-recorded-oldest-{}", table.id, ptr.file_id, oldest));
+							}
+						}
+					}
+				}
+				ok = it.next().map_err(|e| e.to_string())?;
+			}
+			if oldest != 0 && oldest < min_oldest {
+				bad.push(format!("table{}:oldest-{}-below-manifest-minimum-{}", table.id, oldest, min_oldest));
+			}
+		}
+		bad.sort();
+		bad.dedup();
+		Ok(bad)
+	}
+
 	/// Flushes the oldest immutable memtable only (what one step of the background flush task does).
 	pub fn flush_oldest(tree: &Tree) -> std::result::Result<bool, String> {
 		let had = tree.core.inner.has_pending_immutables();
